@@ -139,6 +139,42 @@ def m_mh_from_bytes(it, a, ty, callee):
     return res_ok(Mh(code, data))
 
 
+def m_mh_read(it, a, ty, callee):
+    """multihash::Multihash::<64>::read(&mut &[u8]): varint code, varint size (<= 64), `size` digest bytes; the slice is
+    advanced past what was read (trailing bytes stay in it)."""
+    import z3
+    sp = a[0]
+    sl = it.load(sp)
+    def varint(ptr):
+        r = it.call('unsigned_varint::decode::u64', [ptr], None)
+        if r.variant == 1:
+            return None
+        return r.fields[0].fields
+    err = res_err(Adt('multihash::Error', 0, ()))
+    r = varint(sl)
+    if r is None:
+        return err
+    code, rest = r
+    r = varint(rest)
+    if r is None:
+        return err
+    size, rest = r
+    data = it.load(rest).fields
+    top = min(64, len(data))
+    if size.conc:
+        k = size.v if size.v <= top else None
+    else:
+        conds = [size.z() == z3.BitVecVal(j, size.w) for j in range(top + 1)] + [z3.UGT(size.z(), z3.BitVecVal(top, size.w))]
+        k = it.choose(top + 2, conds)
+        if k == top + 1:
+            k = None
+    if k is None:
+        return err
+    base = rest.win[0] if rest.win else 0
+    it.store(sp, Ptr(rest.cell, rest.path, (base + k, len(data) - k)))
+    return res_ok(Mh(code, data[:k]))
+
+
 def m_peerid_try_from(it, a, ty, callee):
     return m_ref_from_multihash(it, a, ty, callee)
 
@@ -349,6 +385,7 @@ def install(it):
     it.add_model(r'multihash::Multihash::<64>::to_bytes', m_mh_to_bytes)
     it.add_model(r'multihash::Multihash::<64>::wrap', m_mh_wrap)
     it.add_model(r'multihash::Multihash::<64>::from_bytes', m_mh_from_bytes)
+    it.add_model(r'multihash::Multihash::<64>::read::<.*>', m_mh_read)
     it.add_model(r'(multiaddr|libp2p_identity)::PeerId::from_bytes', m_ref_from_bytes)
     it.add_model(r'(multiaddr|libp2p_identity)::PeerId::from_multihash', m_ref_from_multihash)
     it.add_model(r'(multiaddr|libp2p_identity)::PeerId::to_bytes', m_mh_to_bytes)
